@@ -297,6 +297,8 @@ type Scenario struct {
 	// a string describing everything that was observed (for determinism and
 	// distinct-outcome counting).
 	Run func(sc *Scenario, s *vsched.Sched) (*Mismatch, string)
+	// post, if set by Run, is evaluated after the scheduler run has ended (it may start runs of its own, e.g. recoveries)
+	post func() (*Mismatch, string)
 }
 
 type schedOutcome struct {
@@ -313,6 +315,14 @@ func (sc *Scenario) exec(prefix []int, expect []string, yieldOnRelease bool) sch
 	})
 	vsync.YieldOnRelease = false
 	ConformanceCheck()
+	if sc.post != nil {
+		if o.mm == nil && o.res.Aborted == "" {
+			mm, extra := sc.post()
+			o.mm = mm
+			o.obs += extra
+		}
+		sc.post = nil
+	}
 	if o.res.Aborted != "" && o.res.Aborted != "diverged" {
 		o.mm = &Mismatch{Op: "-", Where: "process", Want: "runs to completion", Got: o.res.Aborted + ": " + o.res.Msg, Class: "process-" + o.res.Aborted}
 		o.obs += "|" + o.res.Aborted
